@@ -59,10 +59,31 @@ impl Failure {
 		Self::new(oracle, oracle, detail)
 	}
 	pub fn panic(prefix: &str, info: &(String, String)) -> Self {
-		let msg: String = info.1.chars().take(60).collect();
+		// numbers in panic messages vary from case to case: normalise them
+		let mut msg = String::new();
+		let mut in_num = false;
+		for c in info.1.chars() {
+			if c.is_ascii_digit() || (in_num && (c == '.' || c == 'e' || c == '-')) {
+				if !in_num {
+					msg.push('#');
+				}
+				in_num = true;
+			} else {
+				in_num = false;
+				msg.push(c);
+			}
+			if msg.len() >= 60 {
+				break;
+			}
+		}
+		let loc = strip_line(&info.0);
+		let loc = match loc.find("/library/") {
+			Some(i) if loc.starts_with("/rustc/") => &loc[i + 1..],
+			_ => loc,
+		};
 		Self::new(
 			"no-panic",
-			format!("{prefix}panic:{}:{}", strip_line(&info.0), msg),
+			format!("{prefix}panic:{}:{}", loc, msg),
 			format!("panic at {}: {}", info.0, info.1),
 		)
 	}
@@ -99,6 +120,8 @@ pub struct Ctx {
 	pub include_known: bool,
 	/// describe the decoded case (for samples / replay output)
 	pub want_desc: bool,
+	/// print the description as soon as it is known (replay mode: visible even if the case hangs)
+	pub echo_desc: bool,
 	pub desc: String,
 	/// how many times a known-finding class was excluded by construction
 	pub excluded: BTreeMap<&'static str, u64>,
@@ -112,6 +135,7 @@ impl Ctx {
 			tier,
 			include_known: false,
 			want_desc: false,
+			echo_desc: false,
 			desc: String::new(),
 			excluded: BTreeMap::new(),
 			counters: BTreeMap::new(),
@@ -120,7 +144,9 @@ impl Ctx {
 	/// Records that a value fell in a known-finding class. Returns `true` when the caller must
 	/// replace it (exclusion by construction), `false` when known classes are being generated.
 	pub fn exclude(&mut self, class: &'static str) -> bool {
-		if self.include_known {
+		// KVERIF_INCLUDE=class1,class2 switches single exclusions off (exploration aid)
+		let env_included = std::env::var("KVERIF_INCLUDE").map(|v| v.split(',').any(|c| c == class)).unwrap_or(false);
+		if self.include_known || env_included {
 			false
 		} else {
 			*self.excluded.entry(class).or_insert(0) += 1;
@@ -133,6 +159,9 @@ impl Ctx {
 	pub fn describe(&mut self, f: impl FnOnce() -> String) {
 		if self.want_desc {
 			self.desc = f();
+			if self.echo_desc {
+				println!("case: {}", self.desc);
+			}
 		}
 	}
 }
